@@ -221,6 +221,12 @@ Outcome RunC10(RunCtx& ctx)
 		ctx.count("save_failed");
 		return out;
 	}
+	const std::string savedBytes = bytes;   // what the library wrote (the save direction below compares against it)
+	if (archive == A_MSGPACK && s.chance(sim::L_CFG, 1, 4))
+	{
+		const uint32_t n = MsgPackAsForeignEncoder(bytes);
+		if (n) { ctx.count("foreign_integer_formats", n); ctx.note("document re-encoded: " + std::to_string(n) + " non-negative integers moved to the signed formats"); }
+	}
 	const std::string validBytes = bytes;
 	if (archive != A_MSGPACK && bytes.size() >= 3 && bytes.compare(0, 3, "\xEF\xBB\xBF") == 0)
 	{
@@ -318,10 +324,10 @@ Outcome RunC10(RunCtx& ctx)
 		sim::steps_begin(kBlocksPerByte * 65536);
 		const CallResult rs = SaveDynWith(ops, doc, streamBytes, o, oc);
 		sim::steps_end();
-		if (!rs.ok || streamBytes != validBytes)
+		if (!rs.ok || streamBytes != savedBytes)
 		{
 			return Violation("DIVERGENCE", std::string("archive=") + ArchiveName(archive) + " dir=save what=bytes",
-				"stream save (" + oc.str() + ") " + rs.cat + " differs from memory save: " + DiffAt(sim::hex(validBytes, 4096), sim::hex(streamBytes, 4096)));
+				"stream save (" + oc.str() + ") " + rs.cat + " differs from memory save: " + DiffAt(sim::hex(savedBytes, 4096), sim::hex(streamBytes, 4096)));
 		}
 	}
 	return out;
